@@ -52,6 +52,7 @@ type Ctx struct {
 	Only    string // restrict to one backend kind (replay)
 	Replay  string
 	maxMism int
+	NMism   int // total mismatches recorded (also beyond maxMism)
 }
 
 func (c *Ctx) Thorough() bool { return c.Tier == "thorough" }
@@ -73,6 +74,7 @@ func (c *Ctx) nontrivial(fp string) {
 }
 
 func (c *Ctx) mismatch(m Mismatch) {
+	c.NMism++
 	if len(c.R.Mismatches) < c.maxMism {
 		c.R.Mismatches = append(c.R.Mismatches, m)
 	}
